@@ -29,7 +29,7 @@ def run(tier, seed, corrupt=False):
     cfgs.append({"cfg": "MC_RollupData_q.cfg", "distinct": r.distinct, "generated": r.generated, "wall_s": round(r.wall, 1)})
     shapes = []
     for cfg, rollups, cap in ([("MC_RollupData_export_q.cfg", [1, 2], 260)] if tier == "quick" else
-                              [("MC_RollupData_export_q.cfg", [1, 2], 10 ** 9), ("MC_RollupData_export_t.cfg", [1, 2, 3], 3000)]):
+                              [("MC_RollupData_export_q.cfg", [1, 2], 10 ** 9), ("MC_RollupData_export_t.cfg", [1, 2, 3], 2500)]):
         r = vf.run_tlc("RollupData.tla", cfg, tag=f"c07-{cfg}", workers=8, timeout=3000, coverage=False, xmx="12g")
         if r.violation:
             v.mismatch(f"spec:RollupData:{cfg}:{r.violation}", vf.tlc_violation_case(r))
